@@ -370,12 +370,18 @@ func (self Reflect) listMap(v reflect.Value) node.Node {
 			}
 			if r.New {
 				item = self.create(e, nil)
-				keyVal := reflect.ValueOf(key[0].Value())
+				keyVal, err := mapKeyOf(v, key[0])
+				if err != nil {
+					return nil, nil, err
+				}
 				v.SetMapIndex(keyVal, item)
 				// the rows have changed
 				keys = nil
 			} else if key != nil {
-				keyVal := reflect.ValueOf(key[0].Value())
+				keyVal, err := mapKeyOf(v, key[0])
+				if err != nil {
+					return nil, nil, err
+				}
 				if r.Delete {
 					v.SetMapIndex(keyVal, reflect.ValueOf(nil))
 					keys = nil
@@ -729,7 +735,8 @@ func (self Reflect) ReadFieldWithFieldName(fieldName string, m meta.Leafable, pt
 		} else {
 			s = fmt.Sprint(fieldVal.Interface())
 		}
-		if len(s) == 0 {
+		if len(s) == 0 && !isKeyLeaf(m) {
+			// an empty string stands for "not set", except in a key leaf: an item has its key
 			return nil, nil
 		}
 		return val.String(s), nil
@@ -799,4 +806,15 @@ func MetaNameToFieldName(in string) string {
 		}
 	}
 	return string(fixed[:j])
+}
+
+func isKeyLeaf(m meta.Leafable) bool {
+	if list, inList := m.Parent().(*meta.List); inList {
+		for _, k := range list.KeyMeta() {
+			if k == m {
+				return true
+			}
+		}
+	}
+	return false
 }
